@@ -164,6 +164,16 @@ def eval_node_outcome(t, rho, extra_hints=()):
     return (tag, v.conditions_fulfilled.name) if tag == "ok" else (tag, v)
 
 
+def eval_node_outcome_on(lark_tree, t, rho):
+    """as eval_node_outcome, on a lark tree object the caller keeps and evaluates again (parse once, evaluate under many assignments)"""
+    from vlib import evalimpl
+
+    hints = default_hints([k for k in exprs.leaves(t) if exprs.kind(k) == "hint"])
+    evalimpl.set_cer(rc=rho, hints=hints, fc={})
+    tag, v = evalimpl.outcome(lambda: evalimpl.node_evaluation(lark_tree))
+    return (tag, v.conditions_fulfilled.name) if tag == "ok" else (tag, v)
+
+
 def replay_eval(path):
     import json
 
